@@ -338,10 +338,24 @@ def partition_rule(ctx, P, rs, RULE):
             # ---- exhaustive evaluation of the extracted expressions
             bad = None
             n_eval = 0
-            for m in range(1, 13):
+            # sizes the row count does not determine (the number of tensors of a collection: `len(jac_outputs)`) are free: every small value is tried
+            import itertools as _it
+
+            polys_ = [x for e_ in list(loop_sl) + list(last_sl) for x in (e_.get("lo_poly"), e_.get("hi_poly")) if x is not None] + \
+                     [x for v_ in ivars.values() for x in (v_.get("stop_poly"), v_.get("start_poly"), v_.get("step_poly")) if x is not None]
+            seen_syms, todo_p = set(), list(polys_)
+            while todo_p:
+                for sy in todo_p.pop().symbols():
+                    if sy not in seen_syms:
+                        seen_syms.add(sy)
+                        d_ = defs.get(sy)
+                        todo_p += [x for x in (d_[1:] if isinstance(d_, tuple) else ()) if hasattr(x, "symbols")]
+            free_syms = sorted(sy for sy in seen_syms if str(sy).startswith(("len*[", "len[")) and sy != msym and sy not in defs)[:2]
+            for m, extra_vals in _it.product(range(1, 13), _it.product(range(1, 5), repeat=len(free_syms))):
                 ks = range(1, m + 3) if run.variant["chunk"] else [None]
                 for k in ks:
                     env = {msym: m, "k": k if k is not None else m}
+                    env.update(zip(free_syms, extra_vals))
                     keff = k if k is not None else m
                     try:
                         blocks = []
@@ -382,7 +396,7 @@ def partition_rule(ctx, P, rs, RULE):
             if bad and bad[2].startswith("cannot evaluate"):
                 ctx.undecided(RULE, key, f"for m={bad[0]} rows and parallel_chunk_size={bad[1]}: {bad[2]}", fi_loc)
             elif bad:
-                ctx.violated(RULE, key, f"for m={bad[0]} rows and parallel_chunk_size={bad[1]}: {bad[2]}", fi_loc,
+                ctx.violated(RULE, key, f"for m={bad[0]} rows and parallel_chunk_size={bad[1]}" + (f" (with {', '.join(f'{a_}={b_}' for a_, b_ in zip(free_syms, extra_vals))})" if free_syms else "") + f": {bad[2]}", fi_loc,
                              derivation={"m": bad[0], "k": bad[1], "loop": [repr(x["lo_poly"]) + ":" + repr(x["hi_poly"]) for x in loop_sl], "last": [repr(x["lo_poly"]) for x in last_sl]})
             else:
                 ctx.ok(RULE, key, f"index expressions evaluated exhaustively on {n_eval} (m, k) pairs (m ≤ 12): ordered partition, non-empty, ≤ k rows, ceil(m/k) blocks"
